@@ -8,6 +8,7 @@ import (
 	"strings"
 
 	"github.com/wmnsk/go-pfcp/ie"
+	"github.com/wmnsk/go-pfcp/message"
 )
 
 // C08 — SDF filters and PFD-backed application IDs mean what they say.
@@ -280,4 +281,164 @@ func H_C08_sdf() {
 	wantHi := vIteU16(toWild, vIteU16(ref.sport.ok, ref.sport.hi, 65535), ref.dport.hi)
 	vAssert("remote-side-ports-as-written", vOr(vAnd(remote.low == wantLo, remote.high == wantHi),
 		vAnd(refIsWild(wantLo, wantHi), refIsWild(remote.low, remote.high))))
+}
+
+// ---------------------------------------------------------------------------
+// PFD management and application IDs
+
+var vPFDFlows = []string{
+	"permit out ip from 10.1.0.0/16 to assigned",
+	"permit in ip from 10.2.0.0/16 80 to assigned",
+	"permit out udp from any to assigned 53",
+	"permit in tcp from 192.168.7.7 to assigned 8000-8080",
+	"bogus",
+}
+
+// H_C08_pfdtable: an accepted PFD Management Request replaces the whole
+// application table; a rejected one leaves the previous table intact.
+func H_C08_pfdtable() {
+	e := vNewEnv(false)
+	old := map[string]appPFD{"old": {appID: "old", flowDescs: []string{"permit out ip from 10.9.9.9 to assigned"}}}
+	e.pc.appPFDs = old
+	napps := 1 + vChoose("napps", 2)
+	var apps []*ie.IE
+	var wantIDs []string
+	var wantFlows [][]string
+	bad := false
+	for a := 0; a < napps; a++ {
+		id := "app" + string(rune('A'+a))
+		nfl := 1 + vChoose("nflows", 2)
+		var ctx []*ie.IE
+		var flows []string
+		for f := 0; f < nfl; f++ {
+			switch vChoose("flowkind", 3) {
+			case 0:
+				k := vChoose("flow", len(vPFDFlows))
+				ctx = append(ctx, ie.NewPFDContents(vPFDFlows[k], "", "", "", "", nil, nil, nil))
+				flows = append(flows, vPFDFlows[k])
+			case 1:
+				// PFD contents without a flow description
+				ctx = append(ctx, ie.NewPFDContents("", "", "example.org", "", "", nil, nil, nil))
+				bad = true
+			case 2:
+				// truncated PFD contents (flags say a flow description follows; it does not)
+				ctx = append(ctx, ie.New(ie.PFDContents, []byte{0x01, 0x00, 0x00, 0x20, 'p'}))
+				bad = true
+			}
+		}
+		kids := []*ie.IE{ie.NewPFDContext(ctx...)}
+		if vBool("drop_app_id") {
+			bad = true
+		} else {
+			kids = append([]*ie.IE{ie.NewApplicationID(id)}, kids...)
+		}
+		apps = append(apps, ie.NewApplicationIDsPFDs(kids...))
+		wantIDs = append(wantIDs, id)
+		wantFlows = append(wantFlows, flows)
+	}
+	before := len(e.conn.writes)
+	e.vSend(message.NewPFDManagementRequest(0x42, apps...))
+	r := e.vExpectReply("pfd", before, message.MsgTypePFDManagementResponse, 0x42).(*message.PFDManagementResponse)
+	c := vCauseOf(r.Cause)
+	vObserve("pfd", c, len(e.pc.appPFDs))
+	if c != ie.CauseRequestAccepted {
+		vCover("pfd-rejected")
+		vAssert("rejected-only-if-malformed", bad)
+		_, hasOld := e.pc.appPFDs["old"]
+		vAssert("rejected:previous-table-intact", len(e.pc.appPFDs) == 1 && hasOld && len(e.pc.appPFDs["old"].flowDescs) == 1)
+		return
+	}
+	vCover("pfd-accepted")
+	vAssert("accepted-only-if-well-formed", !bad)
+	_, hasOld := e.pc.appPFDs["old"]
+	vAssert("accepted:table-replaced", !hasOld && len(e.pc.appPFDs) == len(wantIDs))
+	for a, id := range wantIDs {
+		got, ok := e.pc.appPFDs[id]
+		vAssert("accepted:app-present", ok && got.appID == id && len(got.flowDescs) == len(wantFlows[a]))
+		for f := range wantFlows[a] {
+			vAssert("accepted:flows-verbatim-in-order", got.flowDescs[f] == wantFlows[a][f])
+		}
+	}
+}
+
+// H_C08_appid: the filter of a PDR that names an application ID is, verbatim,
+// the first provisioned flow description whose direction keyword is the one
+// tied to the PDR's direction (uplink: out, downlink: in).
+func H_C08_appid() {
+	ue := vU32("ue")
+	vAssume(ue != 0)
+	iface := uint8(core)
+	want := "in"
+	if vBool("uplink") {
+		iface, want = access, "out"
+	}
+	// a table of 2 applications x up to 3 flow descriptions drawn from the list
+	n := 1 + vChoose("nflows", 3)
+	var flows []string
+	for k := 0; k < n; k++ {
+		flows = append(flows, vPFDFlows[vChoose("flow", len(vPFDFlows))])
+	}
+	tbl := map[string]appPFD{"app1": {appID: "app1", flowDescs: flows}, "app2": {appID: "app2", flowDescs: []string{vPFDFlows[0]}}}
+	mk := func() pdr {
+		p := pdr{srcIface: iface, srcIfaceMask: 0xff, ueAddress: ue}
+		if iface == core {
+			p.appFilter.dstIP, p.appFilter.dstIPMask = ue, 0xffffffff
+		} else {
+			p.appFilter.srcIP, p.appFilter.srcIPMask = ue, 0xffffffff
+		}
+		return p
+	}
+	p := mk()
+	pre := p.appFilter
+	unknown := vBool("unknown_app")
+	name := "app1"
+	if unknown {
+		name = "nosuch"
+	}
+	err := p.parseApplicationID(ie.NewApplicationID(name), tbl)
+	vObserve("appid", err != nil)
+	if unknown {
+		vCover("unknown-app")
+		vAssert("unknown-application-refused", err != nil && err != errBadFilterDesc)
+		vAssert("unknown-application-leaves-filter", p.appFilter == pre)
+		return
+	}
+	// reference: walk the flows in order
+	var chosen *ipFilterRule
+	broken := false
+	for _, f := range flows {
+		r, perr := parseFlowDesc(f, int2ip(ue).String())
+		if perr != nil {
+			broken = true
+			break
+		}
+		if r.direction == want {
+			chosen = r
+			break
+		}
+	}
+	switch {
+	case broken:
+		vCover("bad-flow-in-table")
+		vAssert("bad-flow:bad-filter-error", err == errBadFilterDesc)
+		vAssert("bad-flow:filter-is-ue-address-only", p.appFilter == pre)
+	case chosen == nil:
+		vCover("no-matching-direction")
+		vAssert("no-match:no-error", err == nil)
+		vAssert("no-match:filter-is-ue-address-only", p.appFilter == pre)
+	default:
+		vCover("matched")
+		vAssert("match:no-error", err == nil)
+		af := p.appFilter
+		sip, sm := vNetOf(chosen.src.IPNet)
+		dip, dm := vNetOf(chosen.dst.IPNet)
+		vAssert("match:verbatim-source", vAnd(af.srcIP == sip, af.srcIPMask == sm))
+		vAssert("match:verbatim-destination", vAnd(af.dstIP == dip, af.dstIPMask == dm))
+		vAssert("match:verbatim-ports", af.srcPortRange == chosen.src.ports && af.dstPortRange == chosen.dst.ports)
+		vAssert("match:proto", vOr(vAnd(chosen.proto == reservedProto, af.protoMask == 0), vAnd(af.proto == chosen.proto, af.protoMask == 0xff)))
+		// the same for every PDR of that direction
+		p2 := mk()
+		_ = p2.parseApplicationID(ie.NewApplicationID(name), tbl)
+		vAssert("match:same-for-all-pdrs-of-the-direction", p2.appFilter == af)
+	}
 }
